@@ -12,8 +12,17 @@ RUNS = {
     ],
 }
 
+NOT_YET = {}
+
 PROPS = {
     "C01": {
+        "level_text": "Proof: the generic layout codec round trip (dec (enc v ++ rest) = (norm v, rest)) and the frame round trip "
+                      "recv1 (frame m ++ rest) = (msg tag (norm m), rest) are Lean theorems for every layout / every registered "
+                      "message / all values; conformance of the 65 layouts, type numbers, mask bits and FixedSize values to the "
+                      "9P2000.L tables is decided by `decide` over the table regenerated from messages.go/p9.go/buffer.go on every run.",
+        "level_note": "Trusted: Lean kernel (axioms propext, Classical.choice, Quot.sound only), the extractor's reading of "
+                      "b.WriteX(field)/b.ReadX() statements (cross-checked by K1 on every run), Spec/NineP.lean as my transcription of the protocol. "
+                      "Modelled, not verified: Go's append/slicing, net.Buffers.WriteTo, sync.Pool reuse.",
         "rule": "K1: random boundary-biased values for all 65 registered message types (every type the same number of "
                 "times) sent through the real send() and read back through the real recv(); the frame bytes and the "
                 "decoded values are compared with the protocol-table serialiser (Spec.bytes / recv1 over Spec.messages). "
